@@ -142,6 +142,14 @@ func generate(o *hx.Opts) []*dirIn {
 	add("order", []entryIn{probe("00-okz", 0o755), probe("99-oka", 0o755), probe("09-okm", 0o755), probe("10-okn", 0o755)}, nil)
 	add("order", []entryIn{probe("2 -ok", 0o644), probe("20-oka", 0o755), probe("19-okb", 0o755), probe("21-ok0", 0o755)}, nil)
 
+	{ // more than 12 plugins with few distinct indices: sort.Slice leaves insertion sort and may permute ties
+		var es []entryIn
+		for i := 0; i < 14; i++ {
+			es = append(es, probe(fmt.Sprintf("%02d-ok%c", []int{30, 10, 20}[i%3], 'n'-rune(i)), 0o755))
+		}
+		add("order", es, nil)
+	}
+
 	// ---- rand
 	for i, n := 0, o.N(200, 2500); i < n; i++ {
 		out = append(out, randomDir(rand.New(rand.NewSource(r.Int63())), "rand"))
